@@ -277,6 +277,50 @@ pub fn check(path: &str) -> Stats {
             fail(&mut st, "evolved-pinned-msk-does-not-roundtrip", String::new());
         }
     }
+    // the other serializable types (headers, cleartext headers): announced length, equality after a
+    // round trip, absent ≡ empty metadata on the wire
+    if let Some(mpk) = mpks.get("mpk2") {
+        let ap = AccessPolicy::parse("D::A && H::T").unwrap();
+        for ml in [None, Some(0usize), Some(1), Some(127), Some(128), Some(1000)] {
+            let meta: Option<Vec<u8>> = ml.map(|l| vec![0xa5; l]);
+            let Out::Ok((_, h)) = call(|| EncryptedHeader::generate(&cc, mpk, &ap, meta.as_deref(), None)) else {
+                fail(&mut st, "header-generate-fails", format!("{ml:?}"));
+                continue;
+            };
+            match ser(&h) {
+                Out::Ok(b) => {
+                    st.bump("roundtrips_ok");
+                    if b.len() != h.length() {
+                        fail(&mut st, "length-mismatch:header", format!("length()={} bytes={}", h.length(), b.len()));
+                    }
+                    if crate::wire::WHeader::parse(&b).is_err() {
+                        fail(&mut st, "wire-reader-rejects-header", String::new());
+                    }
+                    match de::<EncryptedHeader>(&b) {
+                        Out::Ok(h2) if h2 == h => {}
+                        _ => fail(&mut st, "roundtrip-not-equal:header", format!("metadata {ml:?}")),
+                    }
+                }
+                o => fail(&mut st, "serialize-failed:header", o.describe()),
+            }
+            if let Out::Ok(Some(c)) = call(|| h.decrypt(&cc, &kept[0], None)) {
+                match ser(&c) {
+                    Out::Ok(b) => {
+                        st.bump("roundtrips_ok");
+                        if b.len() != c.length() {
+                            fail(&mut st, "length-mismatch:cleartext-header", format!("length()={} bytes={}", c.length(), b.len()));
+                        }
+                        match de::<CleartextHeader>(&b) {
+                            // absent and empty metadata are the same value on the wire
+                            Out::Ok(c2) if c2.secret == c.secret && c2.metadata.clone().unwrap_or_default() == c.metadata.clone().unwrap_or_default() => {}
+                            _ => fail(&mut st, "roundtrip-not-equal:cleartext-header", format!("metadata {ml:?}")),
+                        }
+                    }
+                    o => fail(&mut st, "serialize-failed:cleartext-header", o.describe()),
+                }
+            }
+        }
+    }
     st.sample(json!({"golden_file": path, "objects": st.get("golden_objects_loaded"), "decaps": st.get("golden_decaps")}), 1);
     st
 }
